@@ -700,11 +700,11 @@ def call_of(rng, fn, c):
     return {"fn": "params", "rows": c["kind"] == "rows", "delimiter": dl, "comma": c["decimal"] == ","}
 
 
-def generate_history(rng, tier, script=None):
+def generate_history(rng, tier, script=None, nacq=None):
     combos = [(",", "."), (";", "."), (";", ",")]
     rng.shuffle(combos)
     acqs = []
-    for j in range(rng.choice([1, 2, 2, 3])):
+    for j in range(nacq or rng.choice([1, 2, 3, 3])):
         delimiter, decimal = combos[j % 3]
         acqs.append((history_acq(rng, decimal), delimiter, decimal))
     contents = []
